@@ -21,13 +21,29 @@ import traceback
 TRIGGER = {'both': 'K-C20-a', 'bothsemi': 'K-C20-a', 'loopboth': 'K-C20-a',
            'marker': 'K-C20-b', 'marker2': 'K-C20-b',
            'underscore': 'K-C20-c',
+           'selfsyntax': 'K-C20-i', 'selfindent': 'K-C20-i',
            'escaped': 'K-C20-d', 'true1': 'K-C20-e', 'ansi': 'K-C20-f', 'prefix': 'K-C20-g', 'cr': 'K-C20-h'}
 
 PLAIN = ['assign', 'expr', 'strexpr', 'print', 'noneexpr', 'multi', 'multiexpr', 'multiprint', 'compound',
          'compound_t', 'loopecho', 'loopecho_t', 'funcdef', 'classdef', 'semi', 'semiecho', 'semi2echo', 'comment', 'trailcomment',
          'tripstr', 'blankline', 'blankline2', 'ellipsis', 'ellipsis2', 'normws', 'ellnorm', 'skip', 'skipwant',
          'raise', 'raise_inner', 'raise_file', 'raise_detail', 'raise_detail_mod', 'printraise', 'raise_ell', 'callraise', 'dictecho', 'bytesecho',
-         'wsline', 'longexpr', 'deco']
+         'wsline', 'longexpr', 'deco'] + [
+    # option directives on a CONTINUATION line of a multi-line example (the standard module's directive
+    # regex is MULTILINE over the example source, so they apply to that one example)
+    'skip_cont_loop', 'skip_cont_call', 'skip_cont_multi', 'skip_cont_want', 'ell_cont', 'ell_cont_silent', 'normws_cont',
+    'normws_cont_silent', 'detail_cont', 'detail_cont_silent', 'ellnorm_cont_last',
+    # expected tracebacks of the SyntaxError family (format_exception_only yields several lines) and
+    # multi-line exception messages
+    'syn_eval', 'syn_eval_full', 'syn_eval_detail', 'syn_compile', 'syn_compile_full', 'indent_exec', 'indent_exec_full',
+    'indent_exec_detail', 'tab_exec', 'multiline_msg', 'multiline_msg_detail', 'multiline_msg_ell',
+    # comments inside a multi-line example
+    'multi_comment', 'compound_comment']
+
+# examples that produce no output and have no want (they share a part with their silent neighbours in xdoctest)
+SILENT = ['assign', 'noneexpr', 'multi', 'funcdef', 'classdef', 'deco', 'tripstr', 'comment']
+CONT_DIRECTIVE = ['skip_cont_loop', 'skip_cont_call', 'skip_cont_multi', 'skip_cont_want', 'ell_cont', 'ell_cont_silent',
+                  'normws_cont', 'normws_cont_silent', 'detail_cont', 'detail_cont_silent', 'ellnorm_cont_last']
 
 
 def make_namespace():
@@ -54,7 +70,7 @@ TB = 'Traceback (most recent call last):'
 def example(kind, k):
     """-> dict(src=[lines], directive=str|None, want=None (= REPL output) | callable(repl_out) -> want text,
                bare_end=bool allowed)"""
-    d = {'kind': kind, 'k': k, 'src': None, 'directive': None, 'want': None}
+    d = {'kind': kind, 'k': k, 'src': None, 'directive': None, 'want': None, 'directive_line': 0, 'tbstyle': 'elided'}
     K = k
 
     def src(*lines):
@@ -100,6 +116,7 @@ def example(kind, k):
         src('t(%d); "two"' % K)
     elif kind == 'comment':
         src('# just a comment %d' % K)
+        d['want'] = lambda out: ''      # the standard parser drops comment-only examples (_IS_BLANK_OR_COMMENT)
     elif kind == 'trailcomment':
         src('t(%d)  # a trailing comment' % K)
     elif kind == 'tripstr':
@@ -194,6 +211,97 @@ def example(kind, k):
         src('print("a\\rb", t(%d))' % K)
         d['directive'] = '+NORMALIZE_WHITESPACE'
         d['want'] = lambda out: 'a b %d\n' % K
+    elif kind == 'skip_cont_loop':
+        src('for i%d in range(3):' % K, '    x%d = t(%d) + undefined_name' % (K, K))
+        d['directive'] = '+SKIP'
+        d['directive_line'] = 1
+        d['want'] = lambda out: ''
+    elif kind == 'skip_cont_call':
+        src('print(t(%d),' % K, '      undefined_name)')
+        d['directive'] = '+SKIP'
+        d['directive_line'] = 1
+        d['want'] = lambda out: ''
+    elif kind == 'skip_cont_multi':
+        src('y%d = [t(%d),' % (K, K), '      undefined_name,', '      0]')
+        d['directive'] = '+SKIP'
+        d['directive_line'] = 2
+        d['want'] = lambda out: ''
+    elif kind == 'skip_cont_want':
+        src('print(t(%d),' % K, '      undefined_name)')
+        d['directive'] = '+SKIP'
+        d['directive_line'] = 1
+        d['want'] = lambda out: 'this want is never looked at\n'
+    elif kind == 'ell_cont':
+        src('print("x", t(%d),' % K, '      "yz")')
+        d['directive'] = '+ELLIPSIS'
+        d['directive_line'] = 1
+        d['want'] = lambda out: 'x ... yz\n'
+    elif kind == 'ell_cont_silent':
+        src('e%d = [t(%d),' % (K, K), '      0]')
+        d['directive'] = '+ELLIPSIS'
+        d['directive_line'] = 1
+    elif kind == 'normws_cont':
+        src('print("a   b", t(%d),' % K, '      "c")')
+        d['directive'] = '+NORMALIZE_WHITESPACE'
+        d['directive_line'] = 1
+        d['want'] = lambda out: 'a b\n    %d   c\n' % K
+    elif kind == 'normws_cont_silent':
+        src('if t(%d) >= 0:' % K, '    n%d = 1' % K)
+        d['directive'] = '+NORMALIZE_WHITESPACE'
+        d['directive_line'] = 1
+    elif kind == 'detail_cont':
+        src('raise ValueError("m%d" %', '                 t(%d))' % K)
+        d['directive'] = '+IGNORE_EXCEPTION_DETAIL'
+        d['directive_line'] = 1
+        d['want'] = lambda out: '%s\n    ...\nValueError: a different message\n' % TB
+    elif kind == 'detail_cont_silent':
+        src('d%d = (t(%d),' % (K, K), '      1)')
+        d['directive'] = '+IGNORE_EXCEPTION_DETAIL'
+        d['directive_line'] = 1
+    elif kind == 'ellnorm_cont_last':
+        src('print(list(range(', '    t(%d) + 40)))' % K)
+        d['directive'] = '+ELLIPSIS, +NORMALIZE_WHITESPACE'
+        d['directive_line'] = 1
+        d['want'] = lambda out: '[0,   1,  ...,\n   %d]\n' % (K + 39)
+    elif kind in ('syn_eval', 'syn_eval_full', 'syn_eval_detail'):
+        src('eval("%%d +" %% t(%d))' % K)
+        if kind == 'syn_eval_full':
+            d['tbstyle'] = 'full'
+        if kind == 'syn_eval_detail':
+            d['directive'] = '+IGNORE_EXCEPTION_DETAIL'
+            d['want'] = lambda out: '%s\n    ...\nSyntaxError: some other wording\n' % TB
+    elif kind in ('syn_compile', 'syn_compile_full'):
+        src('compile("x = (%%d" %% t(%d), "<src>", "exec")' % K)
+        if kind == 'syn_compile_full':
+            d['tbstyle'] = 'full'
+    elif kind in ('indent_exec', 'indent_exec_full', 'indent_exec_detail'):
+        src('exec("if %%d:\\nx = 1" %% t(%d))' % K)
+        if kind == 'indent_exec_full':
+            d['tbstyle'] = 'full'
+        if kind == 'indent_exec_detail':
+            d['directive'] = '+IGNORE_EXCEPTION_DETAIL'
+            d['want'] = lambda out: '%s\n    ...\nIndentationError: whatever\n' % TB
+    elif kind == 'tab_exec':
+        src('exec("if %%d:\\n\\tx = 1\\n        y = 2" %% t(%d))' % K)
+    elif kind == 'selfsyntax':
+        # the example's OWN source does not compile: for the standard module that is the example's exception
+        src('t(%d) +' % K)
+    elif kind == 'selfindent':
+        src('if t(%d):' % K, 'y%d = 1' % K)
+    elif kind == 'multi_comment':
+        src('c%d = [t(%d),' % (K, K), '# a comment inside the literal', '      0]')
+    elif kind == 'compound_comment':
+        src('if t(%d) >= 0:' % K, '    # a comment line in the body', '    print("cc%d")' % K)
+    elif kind == 'multiline_msg':
+        src('raise ValueError("multi\\n   line %%d\\ndetail" %% t(%d))' % K)
+    elif kind == 'multiline_msg_detail':
+        src('raise ValueError("multi\\n   line %%d\\ndetail" %% t(%d))' % K)
+        d['directive'] = '+IGNORE_EXCEPTION_DETAIL'
+        d['want'] = lambda out: '%s\n    ...\nValueError: another\n   text\n' % TB
+    elif kind == 'multiline_msg_ell':
+        src('raise ValueError("multi\\n   line %%d\\ndetail" %% t(%d))' % K)
+        d['directive'] = '+ELLIPSIS'
+        d['want'] = lambda out: '%s\n    ...\nValueError: multi\n   ...\ndetail\n' % TB
     else:
         raise KeyError(kind)
     return d
@@ -224,7 +332,8 @@ def repl_run(specs):
                     exec(code, ns)
                 outs.append(buf.getvalue())
             except Exception as e:
-                outs.append(('raise', traceback.format_exception_only(type(e), e)[-1], buf.getvalue()))
+                fe = traceback.format_exception_only(type(e), e)
+                outs.append(('raise', fe[-1], buf.getvalue(), ''.join(fe)))
     finally:
         sys.displayhook = old_hook
         if had_:
@@ -244,17 +353,20 @@ def render(specs, layout):
         lines += ['Summary line of the docstring.', '']
     for i, ex in enumerate(specs):
         src = ex['src']
-        first = '>>> ' + src[0]
-        if ex['directive']:
-            first += '  # doctest: ' + ex['directive']
-        lines.append(ind + first)
-        for l in src[1:]:
-            lines.append(ind + ('... ' + l if l else '...'))
+        dl = ex.get('directive_line', 0) if ex['directive'] else -1
+        for j, l in enumerate(src):
+            text = ('>>> ' if j == 0 else '... ') + l if (l or j == 0) else '...'
+            if j == dl:
+                text += '  # doctest: ' + ex['directive']
+            lines.append(ind + text)
         if i in layout.get('bare_end', ()) and len(src) > 1 and ex['kind'] not in ('multi', 'multiexpr', 'multiprint', 'tripstr'):
             lines.append(ind + '...')
         out = outs[i]
         if ex['want'] is not None:
             want = ex['want'](out if isinstance(out, str) else out[2])
+        elif isinstance(out, tuple) and ex.get('tbstyle') == 'full':
+            # what the interpreter prints: the frame of the example, then every line of format_exception_only
+            want = '%s\n  File "<stdin>", line 1, in <module>\n%s' % (TB, out[3])
         elif isinstance(out, tuple):
             want = '%s\n    ...\n%s' % (TB, out[1])
         else:
